@@ -82,6 +82,8 @@ func (root *Root) AddTypes(types ...Type) (err error) {
 	if err != nil {
 		root.types = origTypes
 		root.dirs = origDirs
+	} else {
+		root.assureSchema()
 	}
 	return
 }
@@ -348,13 +350,14 @@ func (root *Root) ParseReader(r io.Reader) error {
 		err = root.addExtends(extends...)
 	}
 	if err == nil {
-		root.assureSchema()
 		err = root.validate()
 	}
 	if err != nil {
 		root.types = origTypes
 		root.dirs = origDirs
 		root.schema = origSchema
+	} else {
+		root.assureSchema()
 	}
 	return err
 }
@@ -1159,12 +1162,17 @@ func (root *Root) AddEvent(id string, event interface{}) (cnt int, err error) {
 	return
 }
 
+// assureSchema makes sure there is a schema. A schema that was not given by a
+// schema block is formed from the Query, Mutation, and Subscription types
+// and picks up those defined since it was formed.
 func (root *Root) assureSchema() {
 	if root.schema == nil {
-		root.schema = &Schema{Object: Object{fields: fieldList{dict: map[string]*FieldDef{}}}}
+		root.schema = &Schema{Object: Object{fields: fieldList{dict: map[string]*FieldDef{}}}, implied: true}
+	}
+	if root.schema.implied {
 		for _, cap := range []string{"Query", "Mutation", "Subscription"} {
-			if t := root.types.get(cap); t != nil {
-				name := strings.ToLower(cap)
+			name := strings.ToLower(cap)
+			if t := root.types.get(cap); t != nil && root.schema.fields.get(name) == nil {
 				_ = root.schema.fields.add(&FieldDef{Base: Base{N: name}, Type: t})
 			}
 		}
